@@ -128,10 +128,10 @@ func (e *sniffEP) MTU() uint32 { return e.lower.MTU() }
 func (e *sniffEP) Capabilities() stack.LinkEndpointCapabilities {
 	return e.lower.Capabilities()
 }
-func (e *sniffEP) MaxHeaderLength() uint16             { return e.lower.MaxHeaderLength() }
-func (e *sniffEP) LinkAddress() tcpip.LinkAddress      { return e.lower.LinkAddress() }
-func (e *sniffEP) Attach(d stack.NetworkDispatcher)    { e.lower.Attach(d) }
-func (e *sniffEP) IsAttached() bool                    { return e.lower.IsAttached() }
+func (e *sniffEP) MaxHeaderLength() uint16          { return e.lower.MaxHeaderLength() }
+func (e *sniffEP) LinkAddress() tcpip.LinkAddress   { return e.lower.LinkAddress() }
+func (e *sniffEP) Attach(d stack.NetworkDispatcher) { e.lower.Attach(d) }
+func (e *sniffEP) IsAttached() bool                 { return e.lower.IsAttached() }
 
 func (e *sniffEP) WritePacket(r *stack.Route, hdr buffer.Prependable, payload buffer.VectorisedView, p tcpip.NetworkProtocolNumber) *tcpip.Error {
 	h := hdr.View()
